@@ -98,8 +98,27 @@ class JournalFileBackend(BaseJournalBackend):
                     del self._log_number_offset[log_number + 1]
             return logs
 
+    def _drop_unterminated_tail(self) -> None:
+        # A writer killed in the middle of ``append_logs`` leaves a partial record at the end of
+        # the file. It can never be decoded, and appending after it would corrupt the next record
+        # as well, so remove it. This method must be called with the file lock held.
+        with open(self._file_path, "rb+") as f:
+            size = f.seek(0, os.SEEK_END)
+            pos = size
+            while pos > 0:
+                chunk_size = min(pos, 4096)
+                f.seek(pos - chunk_size)
+                newline_index = f.read(chunk_size).rfind(b"\n")
+                if newline_index != -1:
+                    pos = pos - chunk_size + newline_index + 1
+                    break
+                pos -= chunk_size
+            if pos < size:
+                f.truncate(pos)
+
     def append_logs(self, logs: list[dict[str, Any]]) -> None:
         with get_lock_file(self._lock):
+            self._drop_unterminated_tail()
             what_to_write = (
                 "\n".join([json.dumps(log, separators=(",", ":")) for log in logs]) + "\n"
             )
